@@ -408,6 +408,12 @@ func findStub(in *Interp, fn *ssa.Function) StubFn {
 		return s
 	}
 	if rn := recvNamed(fn); rn != nil {
+		if _, ok := fieldElemWords(rn); ok && (rn.Obj().Name() == "U64" || rn.Obj().Name() == "U32") && name == "IsZero" {
+			// ORs the raw words: in the field models only word 0 carries the value
+			return func(in *Interp, fn *ssa.Function, a []Val) Val {
+				return in.cfg.Field.Eq(in, in.frRead(a[0]), in.frConst(a[0], 0))
+			}
+		}
 		if _, ok := fieldElemWords(rn); ok && rn.Obj().Name() == "Element" {
 			if st := fieldStub(in, fn, rn.Obj().Name()); st != nil {
 				return st
